@@ -241,6 +241,8 @@ def run_shard(shard, rec):
             case = dict(schema=v, defs=defs, text=m["text"], allow_placeholders=ap, expect=m["code"], kind=kind)
             rec.case((v, tuple(defs), m["text"], ap))
             check_case(case, rec)
+            if m.get("sub"):
+                rec.count("mutation-variant", f"{kind}:{m['sub']}")
             if rng.random() < 0.003:
                 rec.sample(case)
     rec.count("schema", v, shard["n"])
@@ -251,6 +253,10 @@ def finalize(merged, tier, inconclusive):
     for k in annot.MUTATION_KINDS:
         if seen.get(k, 0) < 20:
             inconclusive.append(f"mutation kind '{k}' was exercised {seen.get(k, 0)} times (< 20)")
+    var = merged.hist.get("mutation-variant", {})
+    for k in ("bad-unit:wrong-case", "bad-unit:unit-first", "control-char:in-value"):
+        if var.get(k, 0) < 20:
+            inconclusive.append(f"mutation variant '{k}' was exercised {var.get(k, 0)} times (< 20)")
 
 
 def replay(case, rec):
